@@ -252,6 +252,7 @@ func (e *Engine) decide(c *smt.Term, fr *frame) bool {
 		if r == smt.Unsat {
 			e.trace = append(e.trace, Dec{K: 'b', V: b2u(side), F: true})
 		} else {
+			noteFork(fr, "branch:"+r.String())
 			alt := append(append([]Dec(nil), e.trace...), Dec{K: 'b', V: b2u(!side)})
 			e.pending = append(e.pending, workItem{prefix: alt, model: m})
 			e.trace = append(e.trace, Dec{K: 'b', V: b2u(side)})
@@ -277,6 +278,7 @@ func (e *Engine) decide(c *smt.Term, fr *frame) bool {
 		return true
 	}
 	// both sides feasible (or unknown: keep both, over-approximation)
+	noteFork(fr, "branch:"+rt.String()+"/"+rf.String())
 	alt := append(append([]Dec(nil), e.trace...), Dec{K: 'b', V: 0})
 	e.pending = append(e.pending, workItem{prefix: alt, model: mf})
 	e.trace = append(e.trace, Dec{K: 'b', V: 1})
@@ -358,6 +360,7 @@ func (e *Engine) concretize(t *smt.Term, fr *frame) uint64 {
 		if r == smt.Unsat {
 			e.trace = append(e.trace, Dec{K: 'c', V: v, F: true})
 		} else {
+			noteFork(fr, "concretize")
 			alt := append(append([]Dec(nil), e.trace...), Dec{K: 'n', V: v})
 			e.pending = append(e.pending, workItem{prefix: alt, model: m})
 			e.trace = append(e.trace, Dec{K: 'c', V: v})
